@@ -5,7 +5,7 @@ import json, os, subprocess, sys, time
 
 args = [a for a in sys.argv[1:] if not a.startswith("--")]
 root = "/verif/seeded"
-names = args or sorted(d for d in os.listdir(root) if os.path.isdir(os.path.join(root, d)))
+names = args or sorted(d for d in os.listdir(root) if os.path.isdir(os.path.join(root, d)) and not d.startswith("_"))
 rows = []
 for n in names:
     d = os.path.join(root, n)
@@ -43,7 +43,7 @@ lines = ["# Seeded property-breaking changes", "",
          "Each directory holds `patch.diff` (against the /repo commit in meta.json), `demo.py` (exits 1 with the change, 0 without; "
          "run with MLINSIGHTS_REPO=<tree>), `meta.json`. Detection = `./check <property> quick` with the patch applied to /repo.", "",
          "| seed | breaks | detected by (quick) | first signature |", "|---|---|---|---|"]
-for n in sorted(d for d in os.listdir(root) if os.path.isdir(os.path.join(root, d))):
+for n in sorted(d for d in os.listdir(root) if os.path.isdir(os.path.join(root, d)) and not d.startswith("_")):
     m = json.load(open(os.path.join(root, n, "meta.json")))
     det = m.get("detection", [])
     by = ", ".join(x["check"] for x in det if x["detected"]) or "**missed**"
